@@ -46,3 +46,45 @@ def run(files, thorough):
            'conformance_ticks_with_equal_status': tot['ticks'], 'conformance_snapshots_equal_to_model': tot['snapshots'],
            'conformance_worker_runs_bound': tot['worker_runs'], 'conformance_drift': drift[:20]}
     return cov, states, trans
+
+
+def run_box(files, thorough):
+    """The same for the vector: recorded boxcar::Vec runs replayed against the actions of spec/Boxcar.tla
+    (spec/BoxcarConform.tla), with the model's invariants (incl. the happens-before abstraction) on every state."""
+    jobs = [dict(spec='BoxcarConform.tla', env={'TRACE': f}, workers=1, timeout=7000 if thorough else 1500, xmx='4g') for f in files]
+    res = tlc_many(jobs)
+    tot = {'runs': 0, 'drifted_runs': 0, 'unsupported_runs': 0}
+    drift, states, trans = [], 0, 0
+    for f, (rc, out) in zip(files, res):
+        st = tlc_stats(out)
+        states += st['distinct']; trans += st['generated']
+        done = False
+        for j in json_lines(out):
+            if j.get('ev') == 'DONE':
+                done = True
+                for k in tot:
+                    tot[k] += j['stat'][k]
+            elif j.get('ev') == 'DRIFT':
+                drift.append('vector run %s (scenario %s): no action of Boxcar.tla accepts line %s (%s %s, seq %s); model at that point: pc=%s inflight=%s buckets=%s'
+                             % (j['run'], j['scenario'], j['line'], j['role'], j['site'], j['seq'],
+                                {k: v for k, v in j['pc'].items() if v != 'idle'}, j['inflight'], j['bptr']))
+        if 'is violated' in out:
+            drift.append('%s: an invariant of Boxcar.tla fails on a state reached by a conforming prefix: %s'
+                         % (os.path.basename(f), ' '.join(l for l in out.splitlines() if 'is violated' in l)[:300]))
+        elif not done:
+            err = [l for l in out.splitlines() if l.startswith('Error')][:2]
+            drift.append('%s: the specification could not evaluate the trace to its end (%s)' % (os.path.basename(f), '; '.join(err)[:300] or 'rc=%s' % rc))
+    for d in drift[:12]:
+        print('MODEL-DRIFT: ' + d)
+    if len(drift) > 12:
+        print('MODEL-DRIFT: ... and %d more' % (len(drift) - 12))
+    import conform_mutate
+    tried, rejected, missed = conform_mutate.demo(files, 160 if thorough else 24, os.path.join(os.path.dirname(files[0]), '..', 'conform-mutate'),
+                                                  rng_seed=int(seed()), spec='BoxcarConform.tla', cand=conform_mutate.candidates_box)
+    for m in missed[:5]:
+        print('BINDING-GAP: a corrupted trace was accepted by BoxcarConform.tla: ' + m)
+    cov = {'vector_conformance_runs_replayed_on_model': tot['runs'], 'vector_conformance_runs_rejected': tot['drifted_runs'],
+           'vector_conformance_runs_with_operations_outside_the_model': tot['unsupported_runs'],
+           'vector_conformance_corrupted_traces_tried': tried, 'vector_conformance_corrupted_traces_rejected': rejected,
+           'vector_conformance_drift': drift[:20]}
+    return cov, states, trans
